@@ -19,7 +19,7 @@ def indent_of(s):
         n += 1
     return n
 
-RE_ATX = re.compile(r'^(#{1,6})(?:[ ]+|$)(.*)$')
+RE_ATX = re.compile(r'^(#{1,6}|#[\ue000-\ue0ff])(?:[ ]+|$)(.*)$')     # '#' + private-use mark: a run of '#' of symbolic length (see natives str::repeat)
 RE_FENCE = re.compile(r'^(`{3,}|~{3,})\s*([^`]*)$')
 RE_RULE = re.compile(r'^(?:(?:-[ ]*){3,}|(?:\*[ ]*){3,}|(?:_[ ]*){3,})$')
 RE_SETEXT = re.compile(r'^(=+|-+)[ ]*$')
@@ -123,7 +123,7 @@ def add_line(doc, line):
         m = RE_ATX.match(body)
         if m:
             cont = block_parent(doc, cont)
-            hd = N('heading', lv=len(m.group(1)))
+            hd = N('heading', lv=(len(m.group(1)) if m.group(1)[-1] == '#' else ('sym', ord(m.group(1)[-1]) - 0xE000)))
             hd.lines.append(re.sub(r'(^|[ ]+)#+[ ]*$', '', m.group(2)).strip())
             hd.open = False
             cont.c.append(hd)
